@@ -16,6 +16,8 @@
 (*              body is empty / a STARTUP body parses as a string map      *)
 (*  k = "resp"  negotiated flag body outcome   what the caller got for a   *)
 (*              response / pushed frame ("value" | "error" | "crash" | ...)  *)
+(*  k = "follow" negotiated flag body first outcome   the request that     *)
+(*              FOLLOWED such a response on the same connection            *)
 (*  k = "srv"   negotiated flag body logical   a frame the re-encoding     *)
 (*              proxy sent to the driver (premise of the resp vectors)     *)
 (* A mismatch prints MONVIOL with the failing aspects; kinds starting with *)
@@ -66,11 +68,17 @@ Kinds(r) ==
                 ELSE chk(~Flag(r) \/ neg = "" \/ ~IsErr(RefDecode(neg, r.wire, FALSE)), "flagged-body-not-compressed-form"))
             \o chk(Flag(r) \/ ~FlagAllowed(neg, r.op), "drift-compressible-frame-not-compressed")
     [] r.k = "resp" ->
-         chk(r.outcome # "crash", "response-crash") \o chk(r.outcome # "hang", "response-hang")
-         \o chk(~ResponseMustFail(r.negotiated, r.flag, r.body) \/ r.outcome # "value", "bad-compressed-response-accepted")
-         \o chk(~GoodCompressedFrame(r.negotiated, r.flag, r.body) \/ r.outcome = "value", "good-compressed-frame-not-delivered")
-         \o chk(ResponseMustFail(r.negotiated, r.flag, r.body) \/ GoodCompressedFrame(r.negotiated, r.flag, r.body)
-                 \/ r.outcome = "value", "drift-good-response-refused")
+         LET good == GoodCompressedFrame(r.negotiated, r.flag, r.body)
+             mustfail == ~good /\ ResponseMustFail(r.negotiated, r.flag, r.body)    \* strict accepts => lenient accepts
+         IN chk(r.outcome # "crash", "response-crash") \o chk(r.outcome # "hang", "response-hang")
+            \o chk(~mustfail \/ r.outcome # "value", "bad-compressed-response-accepted")
+            \o chk(~good \/ r.outcome = "value", "good-compressed-frame-not-delivered")
+            \o chk(mustfail \/ good \/ r.outcome = "value", "drift-good-response-refused")
+    [] r.k = "follow" ->
+         \* the request FOLLOWING a (flagged / corrupt / good) response on the same connection: whatever became of the
+         \* first one, the next plain answer is never misread - bytes of the first frame's body must not be taken for frames
+         chk(r.outcome \notin {"wrong-value", "hang"}, "following-answer-misread")
+         \o chk(r.outcome \in {"value", "wrong-value", "hang"}, "drift-following-request-failed")
     [] r.k = "srv" ->
          \* what the proxy put on the wire is what a conforming node sends: plain, or a strictly valid compressed form
          chk(IF r.flag THEN r.negotiated # "" /\ RefDecode(r.negotiated, r.body, TRUE) = r.logical ELSE r.body = r.logical,
